@@ -231,16 +231,19 @@ structure Table where
       document as they are (`dict(spec, _id=_id)`, `_expand_dots`, `_discard_operators` build new
       dicts around the same values), and 934 `_insert(existing_document)` rebuilds everything.
     * rollback 695 `copy.deepcopy(existing_document)`, 631-632 `self._store[key] = snapshot`.
-    * reads: 1176 `_copy_field(doc)`; 239 `_copy_field(val)` inside `_project_by_spec`; 1214
-      `doc_copy['_id'] = doc['_id']` (NO copy); 1114 `doc_copy[field] = doc[field]` (NO copy), then
-      1147 a slice / 1160 `[item]`: a new list of the same element objects.
-    * `distinct` 1975-1992 works on `find()` copies, `dict(v)` of the hashdicts.
-    * `aggregate` 1813 `[doc for doc in self.find()]`; aggregate.py 1556 `dict(doc)`, 1404/1414
-      `copy.deepcopy(doc)`; constants of the pipeline are evaluated to themselves.
-    * 548 `return data['_id']` — the stored `_id` object is what `inserted_id`, `inserted_ids`
-      and (934, 961) `upserted_id` hand back (NO copy).
-    * `Cursor._compute_results` 1896-1912 caches the result list and `__next__`/`__getitem__`
-      hand out its elements: reading the cursor again returns the same objects. -/
+    * reads: 1176 `_copy_field(doc)`; 239 `_copy_field(val)` inside `_project_by_spec`; 1217
+      `doc_copy['_id'] = _copy_field(doc['_id'], container)`; 1114
+      `doc_copy[field] = _copy_field(doc[field], dict)`, then 1147 a slice / 1160 `[item]`: a new
+      list of the elements of that copy.
+    * `distinct` 1988-2005 works on `find()` copies, `dict(v)` of the hashdicts.
+    * `aggregate` 1826 `[doc for doc in self.find()]`; aggregate.py 1556 `dict(doc)`, 1404/1414
+      `copy.deepcopy(doc)`; constants of the pipeline are evaluated to themselves (NO copy,
+      caller → caller).
+    * 548 `return _copy_field(data['_id'], dict)` — `inserted_id`, `inserted_ids` and (934, 961)
+      `upserted_id` are copies of the stored `_id`.
+    * `Cursor._compute_results` 1909-1925 caches the result list and `__next__`/`__getitem__`
+      hand out its elements: reading the cursor again returns the same objects (NO copy, caller →
+      caller). -/
 def copyDiscipline : Table where
   disc
     | .insertArg => [.noCopy]
@@ -262,15 +265,15 @@ def copyDiscipline : Table where
     | .rollbackSnapshot => [.deepcopy]
     | .findDoc => [.copyField]
     | .projField => [.copyField]
-    | .projId => [.noCopy]
-    | .projOpStored => [.noCopy]
+    | .projId => [.copyField]
+    | .projOpStored => [.copyField]
     | .projOpCopied => [.copyField]
     | .distinctVal => [.copyField, .shallow]
     | .aggDoc => [.copyField]
     | .aggAddFields => [.copyField, .shallow]
     | .aggUnwind => [.copyField, .deepcopy]
-    | .insertedId => [.noCopy]
-    | .upsertedId => [.noCopy]
+    | .insertedId => [.copyField]
+    | .upsertedId => [.copyField]
     | .aggLiteral => [.noCopy]
     | .cursorCache => [.noCopy]
 
@@ -618,12 +621,11 @@ def Pos.final : Pos → Bool
 def Op.copying (T : Table) (op : Op) : Bool :=
   op.rows.all (fun p => !p.final || p.flow == .callerToCaller || chainDeep (T.disc p))
 
-/-- what a call does to the objects it is given (collection.py 530-531, 1185-1221) -/
+/-- what a call does to the objects it is given (collection.py 530-531; 1184 `fields =
+    dict(fields)`: the projection dictionary is worked on in a copy) -/
 inductive ArgFx where
   | untouched
   | addsId          -- insert: `data['_id'] = ObjectId()` when the document has none
-  | popsAndRestores -- projection dict: `_id` and the operator fields are popped and put back at
-                    -- the end (key order changes); they stay popped when the call raises
   deriving DecidableEq, Repr
 
 inductive ArgRole where
@@ -632,7 +634,6 @@ inductive ArgRole where
 
 def argEffect : Op → ArgRole → ArgFx
   | .insertOne, .document | .insertMany, .document => .addsId
-  | .findProjected, .projection | .findOneAndProjected, .projection => .popsAndRestores
   | _, _ => .untouched
 
 /-! ### steps that stay within given rows -/
@@ -668,6 +669,20 @@ def Step.within (ps : List Pos) : Step → Bool
 def Step.callerOwns (w : World) : Step → Bool
   | .pass args => (idsL args).all (fun a => (idsL w.held).contains a || decide (w.next ≤ a))
   | _ => true
+
+/-- the final positions of the table -/
+def finalPositions : List Pos := Pos.all.filter Pos.final
+
+/-- A step is WELL-FORMED when it only names final positions, takes each travelling value from
+    where its position says (store → caller positions from the store, caller → caller positions
+    from held objects, …), new documents end in a position that leads into the store, and results
+    name no temporary.  No condition on the table. -/
+def Step.wellFormed (s : Step) : Bool := s.within finalPositions
+
+/-- every step of a history is well-formed and passes only objects of the caller -/
+def wfRun (T : Table) (w : World) : List Step → Bool
+  | [] => true
+  | s :: r => s.wellFormed && s.callerOwns w && wfRun T (step T w s) r
 
 /-! ### which position each field of a projected result travels through
 
